@@ -157,7 +157,10 @@ class Config(_mixins.CodeMixin):
     def seed_sequence(self, value: Any) -> None:
         self._seed_sequence = value
         self.rng = np.random.default_rng(self._seed_sequence)
-        random.seed(self._seed_sequence)
+        # NOTE: A dedicated generator is used instead of seeding the global `random`
+        # module, otherwise creating any other `Config` would change the samples of
+        # seeded simulations.
+        self._python_rng = random.Random(self._seed_sequence)
 
     @property
     def complex_dtype(self):
@@ -180,6 +183,7 @@ class Config(_mixins.CodeMixin):
         # NOTE: We want to preserve the RNG, otherwise simulations may lead to repeated
         # samples if the user reuses the simulator.
         config_copy.rng = self.rng
+        config_copy._python_rng = self._python_rng
 
         return config_copy
 
